@@ -60,13 +60,35 @@ func validSpec(vendor, class string, devs []string, tag string) *specs.Spec {
 
 var repeatLast16 bool // scenario variant: the last configured directory repeats the first one (in another spelling)
 
-// c16Write runs one write / refresh / remove / remove-again scenario under root.
-func c16Write(root string, idx int, dirSpellings []string, lastMissing bool, vendor, class, name string, preexisting bool, lowerShadow bool) hx.Case {
+// c16Opt: dimensions of a write / remove scenario beyond the directory spellings.
+type c16Opt struct {
+	LastMissing bool
+	PrevKind    int    // at the target path before the write: 0 nothing, 1 a previous version (regular file), 2 a link to a file outside the Spec directories, 3 a dangling link
+	LowerShadow bool   // a lower-priority directory defines the same devices ...
+	SameName    bool   // ... in a file with the very name of the file to be written (else shadowed.yaml)
+	Relative    bool   // the directories are configured relative to the working directory
+	LastIsCwd   bool   // (Relative) the last directory is the working directory itself, spelled LastSpell
+	LastSpell   string //
+	Config      int    // how the cache got its directories: 0 NewCache(WithSpecDirs); 1 NewCache on other directories, then Configure(WithSpecDirs); 2 NewCache(WithSpecDirs), then Configure(WithAutoRefresh(false)); 3 as 1 with an empty list in between
+}
+
+// c16Write runs one remove / write / refresh / remove / remove-again / write-again / remove-a-link scenario under root.
+func c16Write(root string, idx int, dirSpellings []string, vendor, class, name string, o c16Opt) hx.Case {
 	base := filepath.Join(root, fmt.Sprintf("w%d", idx))
 	_ = os.MkdirAll(base, 0o755)
+	if o.Relative {
+		if cwd, err := os.Getwd(); err == nil {
+			defer func() { _ = os.Chdir(cwd) }()
+		}
+		_ = os.Chdir(base)
+	}
+	lastMissing := o.LastMissing && !o.LastIsCwd
 	// the configured directories: spelling i is applied to base/d<i>
 	dirs := make([]string, len(dirSpellings))
 	realOf := func(i int) string {
+		if o.LastIsCwd && i == len(dirSpellings)-1 {
+			return base
+		}
 		if repeatLast16 && i == len(dirSpellings)-1 && i > 0 {
 			return filepath.Join(base, "d0", "cdi") // the last configured directory is the first one again
 		}
@@ -77,11 +99,32 @@ func c16Write(root string, idx int, dirSpellings []string, lastMissing bool, ven
 		if !(lastMissing && i == len(dirSpellings)-1) {
 			_ = os.MkdirAll(real, 0o755)
 		}
-		dirs[i] = strings.ReplaceAll(sp, "D", real)
+		shown := real
+		if o.Relative {
+			shown, _ = filepath.Rel(base, real)
+		}
+		switch {
+		case o.LastIsCwd && i == len(dirSpellings)-1:
+			dirs[i] = o.LastSpell
+		case sp == "DD": // the first separator doubled
+			dirs[i] = strings.Replace(shown, "/", "//", 1)
+		default:
+			dirs[i] = strings.ReplaceAll(sp, "D", shown)
+		}
 	}
+	tname := name
+	if e := filepath.Ext(name); e != ".json" && e != ".yaml" {
+		tname += ".yaml"
+	}
+	plainName := name != "" && !strings.ContainsAny(name, "/\x00") && name != "." && name != ".."
 	spec := validSpec(vendor, class, []string{"dev0", "dev1"}, "written")
-	// pre-existing content: unrelated vendor in every existing directory, an optional lower-priority definition
-	// of the same devices, an optional previous version of the target file
+	last := realOf(len(dirs) - 1)
+	// pre-existing content: unrelated vendor in every existing directory, an optional lower-priority definition of the same
+	// devices (under a name of its own or under the name of the file to be written), an optional previous version of the target file
+	lowerName := "shadowed.yaml"
+	if o.SameName && plainName {
+		lowerName = tname
+	}
 	for i := range dirs {
 		real := realOf(i)
 		if repeatLast16 && i == len(dirs)-1 && i > 0 {
@@ -90,28 +133,67 @@ func c16Write(root string, idx int, dirSpellings []string, lastMissing bool, ven
 		if _, err := os.Stat(real); err == nil {
 			writeSpecFile(filepath.Join(real, "other.json"), validSpec("other.org", "thing", []string{"x"}, fmt.Sprintf("other%d", i)))
 			_ = os.WriteFile(filepath.Join(real, "README"), []byte("not a spec"), 0o644)
-			if lowerShadow && i < len(dirs)-1 {
-				writeSpecFile(filepath.Join(real, "shadowed.yaml"), validSpec(vendor, class, []string{"dev0", "dev1"}, fmt.Sprintf("lower%d", i)))
+			if o.LowerShadow && i < len(dirs)-1 && real != last {
+				writeSpecFile(filepath.Join(real, lowerName), validSpec(vendor, class, []string{"dev0", "dev1"}, fmt.Sprintf("lower%d", i)))
 			}
 		}
 	}
-	cache, _ := cdi.NewCache(cdi.WithSpecDirs(dirs...), cdi.WithAutoRefresh(false))
-	if preexisting {
+	outside := filepath.Join(base, "outside")
+	_ = os.MkdirAll(outside, 0o755)
+	_ = os.WriteFile(filepath.Join(outside, "victim"), []byte("a file outside the Spec directories"), 0o644)
+	writeSpecFile(filepath.Join(outside, "victim.json"), validSpec(vendor, class, []string{"dev0"}, "outside"))
+	var cache *cdi.Cache
+	switch o.Config {
+	case 1, 3:
+		// the later configuration must win: first the directories in reverse order behind a foreign one
+		elsewhere := filepath.Join(base, "elsewhere", "cdi")
+		_ = os.MkdirAll(elsewhere, 0o755)
+		first := []string{}
+		for i := len(dirs) - 1; i >= 0; i-- {
+			first = append(first, dirs[i])
+		}
+		first = append(first, elsewhere)
+		cache, _ = cdi.NewCache(cdi.WithSpecDirs(first...), cdi.WithAutoRefresh(false))
+		// the cache is used under its first configuration (write and remove in the foreign directory) before it is given the directories
+		_, _ = hx.Guard(func() { _ = cache.WriteSpec(spec, "probe.json") })
+		_, _ = hx.Guard(func() { _ = cache.RemoveSpec("probe.json") })
+		_, _ = hx.Guard(func() { _ = cache.RemoveSpec(name) })
+		if o.Config == 3 {
+			_ = cache.Configure(cdi.WithSpecDirs())
+		}
+		_ = cache.Configure(cdi.WithSpecDirs(dirs...))
+	case 2:
+		cache, _ = cdi.NewCache(cdi.WithSpecDirs(dirs...))
+		_ = cache.Configure(cdi.WithAutoRefresh(false))
+	default:
+		cache, _ = cdi.NewCache(cdi.WithSpecDirs(dirs...), cdi.WithAutoRefresh(false))
+	}
+	all := func(d snapDiff) []string {
+		return append(append(append(append([]string{}, d.FilesDeleted...), d.FilesChanged...), d.DirsCreated...), d.DirsDeleted...)
+	}
+	// removing a name which was never written (the last directory possibly missing): succeeds and changes nothing
+	var r0err error
+	sA := takeSnap(base)
+	p0, _ := hx.Guard(func() { r0err = cache.RemoveSpec(name) })
+	r0changes := all(diffSnap(sA, takeSnap(base)))
+	switch o.PrevKind {
+	case 1:
 		_ = cache.WriteSpec(validSpec(vendor, class, []string{"dev0"}, "previous"), name)
+	case 2, 3:
+		if _, err := os.Stat(last); err == nil && plainName {
+			to := filepath.Join(outside, "victim.json")
+			if o.PrevKind == 3 {
+				to = filepath.Join(outside, "nothing-here.json")
+			}
+			_ = os.Symlink(to, filepath.Join(last, tname))
+		}
 	}
 	// neighbours of the file to be written, named after it: left-overs a writer could mistake for its own (a regular file, a
 	// link to a file outside the Spec directories, a dangling link or a directory called <file>.tmp; backups; an old
 	// temporary file).  Writing and removing must leave every one of them alone.
 	neighbours := []string{}
-	if last := realOf(len(dirs) - 1); idx%3 != 0 && name != "" && !strings.ContainsAny(name, "/\x00") && name != "." && name != ".." {
+	if idx%3 != 0 && plainName {
 		if _, err := os.Stat(last); err == nil {
-			tname := name
-			if e := filepath.Ext(name); e != ".json" && e != ".yaml" {
-				tname += ".yaml"
-			}
-			outside := filepath.Join(base, "outside")
-			_ = os.MkdirAll(outside, 0o755)
-			_ = os.WriteFile(filepath.Join(outside, "victim"), []byte("a file outside the Spec directories"), 0o644)
 			tmp := filepath.Join(last, tname+".tmp")
 			switch (idx / 3) % 4 {
 			case 0:
@@ -162,6 +244,8 @@ func c16Write(root string, idx int, dirSpellings []string, lastMissing bool, ven
 	// the same Spec under the same name once more, with no refresh since the removal: the file must be there again, with
 	// the same content; and written over foreign content at that path it must restore its own content
 	var again []string
+	// removing the name while it is a link to a file outside the Spec directories deletes the link and nothing else
+	rlink := []string{"<not tried>"}
 	{
 		s3 := takeSnap(base)
 		_, _ = hx.Guard(func() { _ = cache.WriteSpec(spec, name) })
@@ -179,11 +263,37 @@ func c16Write(root string, idx int, dirSpellings []string, lastMissing bool, ven
 				again = append(again, "<foreign>")
 			}
 			_ = os.Remove(target)
+			if os.Symlink(filepath.Join(outside, "victim.json"), target) == nil {
+				s5 := takeSnap(base)
+				var lerr error
+				pl, _ := hx.Guard(func() { lerr = cache.RemoveSpec(name) })
+				rlink = all(diffSnap(s5, takeSnap(base)))
+				if lerr != nil || pl {
+					rlink = append(rlink, "<error>")
+				}
+				_ = os.Remove(target)
+			}
 		}
 	}
 	other := append(append(append([]string{}, d2.FilesChanged...), d2.DirsCreated...), d2.DirsDeleted...)
-	obs := hx.C("mkWobs", hx.B(werr != nil || p), hx.LS(d1.FilesChanged), hx.LS(append(d1.FilesDeleted, d1.DirsDeleted...)), hx.LS(d1.DirsCreated), hx.B(isJSON),
-		hx.L(resolved), hx.B(rerr != nil || p2), hx.LS(d2.FilesDeleted), hx.LS(other), hx.B(r2err != nil || p3), hx.LS(again))
+	// with directories configured relative to the working directory the observed paths are taken relative to it too
+	obsPaths := func(l []string) []string {
+		out := make([]string, len(l))
+		for i, x := range l {
+			switch {
+			case !o.Relative:
+				out[i] = x
+			case x == base:
+				out[i] = "."
+			default:
+				out[i] = strings.TrimPrefix(x, base+"/")
+			}
+		}
+		return out
+	}
+	obs := hx.C("mkWobs", hx.B(r0err != nil || p0), hx.LS(obsPaths(r0changes)),
+		hx.B(werr != nil || p), hx.LS(obsPaths(d1.FilesChanged)), hx.LS(obsPaths(append(d1.FilesDeleted, d1.DirsDeleted...))), hx.LS(obsPaths(d1.DirsCreated)), hx.B(isJSON),
+		hx.L(resolved), hx.B(rerr != nil || p2), hx.LS(obsPaths(d2.FilesDeleted)), hx.LS(obsPaths(other)), hx.B(r2err != nil || p3), hx.LS(obsPaths(again)), hx.LS(obsPaths(rlink)))
 	rel := func(l []string) []string {
 		o := make([]string, len(l))
 		for i, x := range l {
@@ -193,9 +303,11 @@ func c16Write(root string, idx int, dirSpellings []string, lastMissing bool, ven
 	}
 	return hx.Case{
 		Term: hx.C("CWrite", hx.LS(dirs), hx.S(name), "2", obs),
-		Desc: map[string]interface{}{"op": "WriteSpec/Refresh/RemoveSpec", "dirs(relative to scenario root)": rel(dirs), "name": hx.JS(name), "kind": vendor + "/" + class,
-			"last_dir_missing": lastMissing, "neighbours_in_last_dir": neighbours, "previous_file": preexisting, "lower_priority_definition": lowerShadow,
-			"write_err": fmt.Sprint(werr), "files_changed": rel(d1.FilesChanged), "dirs_created": rel(d1.DirsCreated), "remove_deleted": rel(d2.FilesDeleted)},
+		Desc: map[string]interface{}{"op": "RemoveSpec/WriteSpec/Refresh/RemoveSpec/...", "dirs(relative to scenario root)": rel(dirs), "name": hx.JS(name), "kind": vendor + "/" + class,
+			"options": o, "last_dir_repeats_first": repeatLast16, "neighbours_in_last_dir": neighbours, "lower_priority_file": lowerName,
+			"first_remove_err": fmt.Sprint(r0err), "first_remove_changed": rel(r0changes),
+			"write_err": fmt.Sprint(werr), "files_changed": rel(d1.FilesChanged), "dirs_created": rel(d1.DirsCreated), "remove_deleted": rel(d2.FilesDeleted),
+			"remove_of_link_changed": rel(rlink)},
 		Nontrivial: true,
 		Class:      "write-remove",
 	}
@@ -211,7 +323,11 @@ func genC16(r *hx.R, tier string, scratch string) (*hx.Suite, error) {
 		Rule: "write/refresh/remove scenarios on real directory trees (tree snapshots before/after): 1-3 configured directories in clean and non-clean " +
 			"spellings (doubled and trailing separators, ./ and x/.. segments), last directory missing or present, previous file or not, lower-priority " +
 			"definition of the same devices or not; names from all four generators for kinds with dotted vendors/classes, classes ending in .json/.yaml/.JSON/.yml, " +
-			"one-letter parts; transient ids with '/', '..', dots, extensions in every case spelling, empty id; explicit .json/.yaml suffixes. " +
+			"one-letter parts; transient ids with '/', '..', dots, extensions in every case spelling, empty id, blanks / line breaks at either end, glob and shell characters, " +
+			"invalid UTF-8, every id dealt out at least once; explicit .json/.yaml suffixes. Directories absolute or relative to the working directory (incl. the working " +
+			"directory itself spelled '.', '', './', 'x/..'); the cache configured at creation, re-configured onto the directories after having been used on others, or after an empty list; " +
+			"a file of the very same name in the lower directories; a link to a file outside (or a dangling link) at the target; the name removed before it was ever written " +
+			"(directory possibly missing) and removed while it is a link to a file outside. " +
 			"Plus correspondence of the filepath models (Clean/Ext/Base/Dir/Join) on generated paths and of the four name generators on valid and invalid kinds.",
 	}
 	// filepath models
@@ -237,7 +353,9 @@ func genC16(r *hx.R, tier string, scratch string) (*hx.Suite, error) {
 	// name generators
 	vendors := []string{"vendor.com", "v", "a-b_c.d", "Vendor1", "bad vendor", "", "-x", "x-", "ven/dor"}
 	classes := []string{"gpu", "c", "net.json", "nic.yaml", "NIC.YAML", "a.b.c", "dev.yml", "x.JSON", "bad=class", "", "cl/ass", "y."}
-	tids := []string{"", "id0", "pod1/ctr0", "../../../outside/ctr0", "..", ".", "a/../b", "ctr0.json", "ctr0.JSON", "CTR0.Yaml", "x.yaml", "x.yml", "/abs", "a//b", "trailing/", "sp ace", "é/ü", "a.b.c"}
+	tids := []string{"", "id0", "pod1/ctr0", "../../../outside/ctr0", "..", ".", "a/../b", "ctr0.json", "ctr0.JSON", "CTR0.Yaml", "x.yaml", "x.yml", "/abs", "a//b", "trailing/", "sp ace", "é/ü", "a.b.c",
+		"x ", " x", "x\n", "tab\tid", "-rf", ".hidden", "a\\b", "x.", "x..", "~", "*", "a:b", "%2e%2e%2f", "\xff\xfe/\x80", "x.json ", "ctr.yaml.", "x.json.tmp", "x.tmp", ".json", ".yaml", "/", "//", "x/.json",
+		"CTR0.YAML", "x.jsonx", "x.yaml~", "0000:3b:00.0", "pod_9f/ctr#1?", strings.Repeat("long-id/", 12) + "end"}
 	for _, v := range vendors {
 		for _, c := range classes {
 			for _, t := range tids {
@@ -248,13 +366,22 @@ func genC16(r *hx.R, tier string, scratch string) (*hx.Suite, error) {
 		}
 	}
 	// write / remove scenarios
-	spellings := []string{"D", "D/", "D//", "D/.", "D/x/..", "D/../cdi", strings.Replace("D", "/", "//", 1)}
+	spellings := []string{"D", "D/", "D//", "D/.", "D/x/..", "D/../cdi", "DD", "./D"}
 	goodV := []string{"vendor.com", "v", "a-b_c.d"}
 	goodC := []string{"gpu", "c", "net.json", "nic.yaml", "NIC.YAML", "dev.yml", "x.JSON", "a.b.c"}
 	exts := []string{"", ".json", ".yaml"}
-	n := 60
+	n := 150
 	if tier == "thorough" {
-		n = 600
+		n = 900
+	}
+	// every transient id is used: the ids are dealt out in a shuffled order, round after round
+	deal := append([]string{}, tids...)
+	r.Shuffle(len(deal), func(a, b int) { deal[a], deal[b] = deal[b], deal[a] })
+	dealt := 0
+	nextTid := func() string {
+		t := deal[dealt%len(deal)]
+		dealt++
+		return t
 	}
 	for i := 0; i < n; i++ {
 		nd := 1 + r.Intn(3)
@@ -264,22 +391,40 @@ func genC16(r *hx.R, tier string, scratch string) (*hx.Suite, error) {
 		}
 		v, c := hx.Pick(r, goodV), hx.Pick(r, goodC)
 		raw := &specs.Spec{Kind: v + "/" + c}
-		var name string
-		switch r.Intn(4) {
+		var name, tid string
+		switch r.Intn(6) {
 		case 0:
 			name = cdi.GenerateSpecName(v, c)
 		case 1:
-			name = cdi.GenerateTransientSpecName(v, c, hx.Pick(r, tids))
-		case 2:
 			name, _ = cdi.GenerateNameForSpec(raw)
+		case 2, 3:
+			tid = nextTid()
+			name = cdi.GenerateTransientSpecName(v, c, tid)
 		default:
-			name, _ = cdi.GenerateNameForTransientSpec(raw, hx.Pick(r, tids))
+			tid = nextTid()
+			name, _ = cdi.GenerateNameForTransientSpec(raw, tid)
 		}
-		name += hx.Pick(r, exts)
+		ext := hx.Pick(r, exts)
+		if strings.TrimSpace(tid) != tid && r.Chance(0.7) {
+			ext = "" // the name keeps its trailing blank / line break
+		}
+		name += ext
 		repeatLast16 = nd >= 2 && r.Chance(0.2)
-		lastMissing := r.Chance(0.3) && !repeatLast16
-		lower := r.Chance(0.4) && !repeatLast16 // a "lower" definition in the repeated directory would be a same-directory conflict
-		s.Add(c16Write(scratch, i, sp, lastMissing, v, c, name, r.Chance(0.3), lower))
+		o := c16Opt{LastMissing: r.Chance(0.3) && !repeatLast16, Relative: r.Chance(0.3), Config: hx.Pick(r, []int{0, 0, 1, 2, 3})}
+		o.LowerShadow = r.Chance(0.5) && !repeatLast16 // a "lower" definition in the repeated directory would be a same-directory conflict
+		o.SameName = r.Chance(0.5)
+		if !o.LastMissing {
+			o.PrevKind = hx.Pick(r, []int{0, 0, 1, 1, 2, 3})
+		}
+		if o.Relative && !repeatLast16 && r.Chance(0.3) {
+			o.LastIsCwd, o.LastSpell, o.PrevKind = true, hx.Pick(r, []string{".", "", "./", "x/.."}), hx.Pick(r, []int{0, 1})
+		}
+		for j := range sp {
+			if sp[j] == "./D" && !o.Relative {
+				sp[j] = "D"
+			}
+		}
+		s.Add(c16Write(scratch, i, sp, v, c, name, o))
 		repeatLast16 = false
 	}
 	return s, nil
